@@ -79,6 +79,11 @@ SCENARIOS = {
         "@serializer\ndef w_to(w: W[T_]) -> List[T_]:\n    return w.items\n",
         T="W[int]", S_spec=lst(INT), S="List[int]", f="w_from", U_spec=lst(INT), U="List[int]", g="w_to",
     ),
+    "builtin": dict(
+        src="class Tok(Box):\n    def __str__(self):\n        return self.v\n"
+        "deserializer(Conversion(Tok, source=str, target=Tok))\nserializer(Conversion(str, source=Tok, target=str))\n",
+        T="Tok", S_spec=STR, S="str", f="Tok", U_spec=STR, U="str", g="str",
+    ),
     "generic_inherited": dict(
         src="T_ = TypeVar('T_')\nclass Bag(Generic[T_]):\n    def __init__(self, items):\n        self.items = list(items)\n"
         "    def __eq__(self, o):\n        return type(o) is type(self) and o.items == self.items\n    __hash__ = None\n"
